@@ -211,6 +211,22 @@ func (c *core) sync(fromID uint32, unknownEvents []hg.WireEvent) error {
 	c.logger.WithField("unknown_events", len(unknownEvents)).Debug("Sync")
 
 	var otherHead *hg.Event
+
+	// When the sync is aborted by an error, the Events inserted so far stay in
+	// the hashgraph. Remember the last one created by the other node as a head,
+	// like a complete sync does, otherwise nothing ties those Events to our own
+	// chain: if the other node stops gossiping afterwards (crash) they are
+	// never an ancestor of anyone's Events, never reach consensus, and every
+	// node that received them stays busy for ever.
+	keepHead := func() {
+		if otherHead == nil {
+			return
+		}
+		if h, ok := c.heads[fromID]; !ok || h == nil || otherHead.Index() > h.Index() {
+			c.heads[fromID] = otherHead
+		}
+	}
+
 	for _, we := range unknownEvents {
 		ev, err := c.hg.ReadWireInfo(we)
 		if err != nil {
@@ -218,6 +234,7 @@ func (c *core) sync(fromID uint32, unknownEvents []hg.WireEvent) error {
 				"wire_event": we,
 				"error":      err,
 			}).Error("Reading WireEvent")
+			keepHead()
 			return err
 		}
 
@@ -228,6 +245,7 @@ func (c *core) sync(fromID uint32, unknownEvents []hg.WireEvent) error {
 				continue
 			} else {
 				c.logger.WithError(err).Errorf("Inserting Event")
+				keepHead()
 				return err
 			}
 		}
